@@ -32,6 +32,11 @@ pub enum Step {
 	Reopen,
 	EnactOne,
 	Reindex,
+	IterNew(u8),
+	IterSeek(u64), // key index + 1, or 0 = before every key
+	IterLast,
+	IterNext,
+	IterPrev,
 }
 
 #[derive(Clone, Debug)]
@@ -111,6 +116,9 @@ pub fn gen_case(rng: &mut Rng, kind: &str) -> Case {
 	}
 	if kind == "c09rc" {
 		return gen_case_growth(rng, Some(true))
+	}
+	if kind == "c04" {
+		return gen_case_btree(rng)
 	}
 	let salt_zero = rng.chance(1, 2);
 	let ncols = rng.range(1, 3) as usize;
@@ -272,6 +280,7 @@ pub fn gen_case(rng: &mut Rng, kind: &str) -> Case {
 				}
 			},
 			Step::Reindex => app += 1,
+			Step::IterNew(_) | Step::IterSeek(_) | Step::IterLast | Step::IterNext | Step::IterPrev => (),
 			Step::Clean => dirty = 0,
 			Step::Reopen => {
 				if dirty >= 2 {
@@ -396,6 +405,72 @@ pub fn gen_case_growth(rng: &mut Rng, force_rc: Option<bool>) -> Case {
 	Case { cols, keys, steps, salt_zero: true, class: if force_rc.is_some() { "c09rc".to_string() } else { "c09".to_string() } }
 }
 
+/// C04: a btree column (optionally a second column), 5-14 keys incl. the empty key, keys around the
+/// 254/255/256-byte length-encoding boundary and keys that are prefixes of each other; commits and
+/// pipeline steps interleaved with iterator calls (seek, seek_to_first, seek_to_last, next, prev with
+/// direction changes) on an iterator that stays open across commits.
+pub fn gen_case_btree(rng: &mut Rng) -> Case {
+	let nkeys = rng.range(5, 14) as usize;
+	let ncols = rng.range(1, 2) as usize;
+	let mut cols = vec![ColCfg { btree: true, rc: false, preimage: false, uniform: false, compression: *rng.pick(&[0u8, 0, 1, 2]), threshold: *rng.pick(&[0u32, 4096]) }];
+	if ncols == 2 {
+		cols.push(ColCfg { btree: rng.chance(1, 2), rc: false, preimage: false, uniform: false, compression: 0, threshold: 4096 });
+	}
+	let mut keys = Vec::new();
+	for c in &cols {
+		let mut ks: Vec<Vec<u8>> = Vec::new();
+		while ks.len() < nkeys {
+			let mut k = gen_key(rng, false, c.btree, false);
+			if c.btree && !ks.is_empty() && rng.chance(1, 4) {
+				// a key that extends another key (prefix relation)
+				k = rng.pick(&ks).clone();
+				k.push(*rng.pick(&[0u8, 1, 0xff]));
+			}
+			if !ks.contains(&k) {
+				ks.push(k);
+			}
+		}
+		ks.sort();
+		keys.push(ks);
+	}
+	let first_tok = |ks: &Vec<Vec<u8>>| -> u64 { if ks[0].is_empty() { 1 } else { 0 } };
+	let mut steps = vec![Step::IterNew(0)];
+	let mut have_iter = true;
+	let nsteps = rng.range(15, 60);
+	for _ in 0..nsteps {
+		match rng.below(24) {
+			0..=6 => {
+				let n = rng.range(1, 6) as usize;
+				let mut ops = Vec::new();
+				for _ in 0..n {
+					let c = rng.below(ncols as u64) as usize;
+					let k = rng.below(nkeys as u64) as usize;
+					let opc = *rng.pick(&[0u8, 0, 0, 1]);
+					let vtok = (rng.range(1, 1 << 20) << 32) | size_classes(rng);
+					ops.push((c as u8, opc, k, if opc == 0 { vtok } else { 0 }));
+				}
+				steps.push(Step::Commit(ops));
+			},
+			7..=8 => steps.push(Step::Process),
+			9 => steps.push(Step::Flush),
+			10 => steps.push(Step::EnactAll),
+			11 => steps.push(Step::Clean),
+			12 =>
+				if rng.chance(1, 3) {
+					steps.push(Step::Reopen);
+					steps.push(Step::IterNew(0));
+					have_iter = true;
+				},
+			13..=14 => steps.push(Step::IterSeek(if rng.chance(1, 6) { first_tok(&keys[0]) } else { rng.range(1, nkeys as u64) })),
+			15 => steps.push(Step::IterLast),
+			16..=19 => steps.push(Step::IterNext),
+			_ => steps.push(Step::IterPrev),
+		}
+	}
+	let _ = have_iter;
+	Case { cols, keys, steps, salt_zero: false, class: "c04".to_string() }
+}
+
 pub fn case_tokens(case: &Case) -> Vec<u64> {
 	let mut t = vec![1u64, case.cols.len() as u64];
 	for c in &case.cols {
@@ -419,6 +494,11 @@ pub fn case_tokens(case: &Case) -> Vec<u64> {
 			Step::Reopen => t.push(6),
 			Step::EnactOne => t.push(7),
 			Step::Reindex => t.push(8),
+			Step::IterNew(c) => t.extend_from_slice(&[11, *c as u64]),
+			Step::IterSeek(k) => t.extend_from_slice(&[12, *k]),
+			Step::IterLast => t.push(13),
+			Step::IterNext => t.push(14),
+			Step::IterPrev => t.push(15),
 		}
 	}
 	t
@@ -515,6 +595,8 @@ pub fn run_impl(case: &Case, dir: &std::path::Path) -> Run {
 	let (mut max_bits, mut coexisted) = (0u32, false);
 	let res = std::panic::catch_unwind(std::panic::AssertUnwindSafe(|| {
 		let mut db = Some(Db::open_or_create(&opts).expect("open_or_create"));
+		// the iterator borrows the Db; it is always dropped before the Db is
+		let mut iter: Option<(u8, parity_db::BTreeIterator<'static>)> = None;
 		let trace = std::env::var("VERIF_TRACE").is_ok();
 		for s in &case.steps {
 			if trace {
@@ -522,6 +604,7 @@ pub fn run_impl(case: &Case, dir: &std::path::Path) -> Run {
 			}
 			let mut line: Vec<u64> = Vec::new();
 			let d = db.as_ref().unwrap();
+			let mut iter_out: Option<(u64, u64)> = None;
 			let status = match s {
 				Step::Commit(ops) => {
 					let tx: Vec<(u8, Operation<Vec<u8>, Vec<u8>>)> = ops
@@ -554,14 +637,56 @@ pub fn run_impl(case: &Case, dir: &std::path::Path) -> Run {
 					enact_one(d)
 				},
 				Step::Reindex => d.process_reindex().map(|_| 0).unwrap_or_else(|e| 100 + err_class(&e)),
+				Step::IterNew(c) => {
+					iter = None;
+					let it = d.iter(*c).expect("iter");
+					iter = Some((*c, unsafe { std::mem::transmute::<parity_db::BTreeIterator<'_>, parity_db::BTreeIterator<'static>>(it) }));
+					iter_out = Some((0, 0));
+					0
+				},
+				Step::IterSeek(k) => {
+					if let Some((c, it)) = iter.as_mut() {
+						if *k == 0 {
+							it.seek_to_first().expect("seek_to_first");
+						} else {
+							it.seek(&case.keys[*c as usize][(*k - 1) as usize]).expect("seek");
+						}
+					}
+					iter_out = Some((0, 0));
+					0
+				},
+				Step::IterLast => {
+					if let Some((_, it)) = iter.as_mut() {
+						it.seek_to_last().expect("seek_to_last");
+					}
+					iter_out = Some((0, 0));
+					0
+				},
+				Step::IterNext | Step::IterPrev => {
+					let mut res = (0u64, 0u64);
+					if let Some((c, it)) = iter.as_mut() {
+						let r = if matches!(s, Step::IterNext) { it.next() } else { it.prev() }.expect("iter step");
+						if let Some((k, v)) = r {
+							let kid = case.keys[*c as usize].iter().position(|x| *x == k).map(|i| i as u64 + 1).unwrap_or(0xbadbad);
+							res = (kid, book.token_of(&v));
+						}
+					}
+					iter_out = Some(res);
+					0
+				},
 				Step::Clean => d.clean_logs().map(|_| 0).unwrap_or_else(|e| 100 + err_class(&e)),
 				Step::Reopen => {
+					iter = None;
 					drop(db.take());
 					db = Some(Db::open(&opts).expect("reopen"));
 					0
 				},
 			};
 			line.push(status);
+			if let Some((a, b)) = iter_out {
+				line.push(a);
+				line.push(b);
+			}
 			let d = db.as_ref().unwrap();
 			for (c, ks) in case.keys.iter().enumerate() {
 				for k in ks {
@@ -636,6 +761,7 @@ pub fn run_impl(case: &Case, dir: &std::path::Path) -> Run {
 			obs.extend_from_slice(&line);
 			per_step.push(line);
 		}
+		drop(iter);
 		drop(db);
 	}));
 	let panicked = res.err().map(|e| {
@@ -712,9 +838,13 @@ pub fn oracle(case: &Case, run: &Run) -> Result<(), String> {
 	let mut cnt: Vec<Vec<u64>> = vec![vec![0; nk]; nc];
 	let mut val: Vec<Vec<u64>> = vec![vec![0; nk]; nc];
 	let mut queued = 0usize; // accepted commits not yet processed
+	// iterator position as the property defines it: 0 start, 1 end, 2 at(k), 3 seeked(k)
+	let mut ipos: (u8, u64) = (0, 0);
+	let mut icol: Option<usize> = None;
 	for (si, s) in case.steps.iter().enumerate() {
 		let line = &run.per_step[si];
 		let status = line[0];
+		let is_iter = matches!(s, Step::IterNew(_) | Step::IterSeek(_) | Step::IterLast | Step::IterNext | Step::IterPrev);
 		match s {
 			Step::Commit(ops) => {
 				let invalid = ops.iter().any(|(c, o, _, _)| *o == 2 && !case.cols[*c as usize].rc);
@@ -760,7 +890,42 @@ pub fn oracle(case: &Case, run: &Run) -> Result<(), String> {
 				}
 			},
 			Step::Process => queued = queued.saturating_sub(1),
-			Step::Reopen => queued = 0,
+			Step::Reopen => {
+				queued = 0;
+				icol = None;
+			},
+			Step::IterNew(c) => {
+				icol = Some(*c as usize);
+				ipos = (0, 0);
+			},
+			Step::IterSeek(k) => ipos = (3, *k),
+			Step::IterLast => ipos = (1, 0),
+			Step::IterNext | Step::IterPrev =>
+				if let Some(c) = icol {
+					if !case.cols[c].rc {
+						// the ordered map as of now: every accepted write, in commit order
+						let live: Vec<(u64, u64)> = (0..nk).filter_map(|k| last[c][k].map(|v| (k as u64 + 1, v + 1))).collect();
+						let fwd = matches!(s, Step::IterNext);
+						let want = match (fwd, ipos) {
+							(true, (0, _)) => live.first().cloned(),
+							(true, (1, _)) => None,
+							(true, (2, k)) => live.iter().find(|e| e.0 > k).cloned(),
+							(true, (_, k)) => live.iter().find(|e| e.0 >= k).cloned(),
+							(false, (1, _)) => live.last().cloned(),
+							(false, (0, _)) => None,
+							(false, (2, k)) => live.iter().rev().find(|e| e.0 < k).cloned(),
+							(false, (_, k)) => live.iter().rev().find(|e| e.0 <= k).cloned(),
+						};
+						let got = if line[1] == 0 { None } else { Some((line[1], line[2])) };
+						if got != want {
+							return Err(format!("iter-wrong step {si}: {} from position {:?} returned {:x?}, the ordered map gives {:x?}", if fwd { "next" } else { "prev" }, ipos, got, want))
+						}
+						ipos = match want {
+							Some((k, _)) => (2, k),
+							None => if fwd { (1, 0) } else { (0, 0) },
+						};
+					}
+				},
 			_ =>
 				if status != 0 {
 					return Err(format!("step-error step {si}: pipeline step failed with code {status}"))
@@ -781,7 +946,7 @@ pub fn oracle(case: &Case, run: &Run) -> Result<(), String> {
 			}
 		}
 		// reads
-		let mut i = 1;
+		let mut i = if is_iter { 3 } else { 1 };
 		for c in 0..nc {
 			for k in 0..nk {
 				let (g, sz) = (line[i], line[i + 1]);
@@ -893,6 +1058,11 @@ pub fn main(args: &[String], kind: &str) -> i32 {
 				Step::Reopen => "reopen",
 				Step::EnactOne => "enact-one",
 				Step::Reindex => "reindex",
+				Step::IterNew(_) => "iter-new",
+				Step::IterSeek(_) => "iter-seek",
+				Step::IterLast => "iter-seek-last",
+				Step::IterNext => "iter-next",
+				Step::IterPrev => "iter-prev",
 			};
 			*dist.entry(format!("step-{name}")).or_insert(0) += 1;
 		}
@@ -960,6 +1130,17 @@ pub fn parse_case(line: &str) -> Option<Case> {
 			6 => Step::Reopen,
 			7 => Step::EnactOne,
 			8 => Step::Reindex,
+			11 => {
+				i += 1;
+				Step::IterNew(*t.get(i - 1)? as u8)
+			},
+			12 => {
+				i += 1;
+				Step::IterSeek(*t.get(i - 1)?)
+			},
+			13 => Step::IterLast,
+			14 => Step::IterNext,
+			15 => Step::IterPrev,
 			_ => return None,
 		});
 	}
